@@ -91,6 +91,10 @@ func (g *Gen) randomAggs(s schema, keys []string) []Agg {
 }
 
 func genC04(g *Gen) {
+	g.groupArrangements(4)
+	if g.thorough() {
+		g.groupArrangements(5)
+	}
 	rid := toBS("rid")
 	sizes := []int{0, 1, 2, 3, 5, 9, 17, 33, 70, 140}
 	cards := []int{1, 2, 3, 5, 9, 20, 40, 100}
@@ -135,6 +139,51 @@ func genC04(g *Gen) {
 		}
 		g.end()
 	}
+}
+
+// every arrangement of the rows at small scale: n rows, key K over {0,1}, frame sorted by V where V
+// runs over all permutations (so the physical positions of every group come in every order), then
+// order-sensitive and built-in aggregations of W
+func (g *Gen) groupArrangements(n int) {
+	rid := toBS("rid")
+	perm := make([]int, n)
+	for i := range perm {
+		perm[i] = i
+	}
+	var rec func(k int)
+	emit := func() {
+		for keys := 0; keys < 1<<uint(n); keys++ {
+			kv, vv, wv := make([]int64, n), make([]int64, n), make([]int64, n)
+			for i := 0; i < n; i++ {
+				kv[i] = int64(keys >> uint(i) & 1)
+				vv[i] = int64(perm[i])
+				wv[i] = int64([]int{1, 10, 100, 1000, 10000, 100000}[i])
+			}
+			g.begin("group arrangements")
+			f := g.do(Step{Op: "New", Recv: -1, HasOrder: true, ColOrder: bsList([]string{"K", "V", "W", "T"}), Data: []ColData{
+				{Name: toBS("K"), Kind: "int", Ints: kv}, {Name: toBS("V"), Kind: "int", Ints: vv}, {Name: toBS("W"), Kind: "int", Ints: wv},
+				{Name: toBS("T"), Kind: "bool", Bools: g.boolVals(n)}}})
+			f = g.do(Step{Op: "Sort", Recv: f, Orders: []Order{{Col: toBS("V")}}})
+			f = g.do(Step{Op: "WithRowNums", Recv: f, Dst: rid})
+			g.do(Step{Op: "GroupBy", Recv: f, Cols: bsList([]string{"K"}), Rid: rid})
+			gid := len(g.x.groupers) - 1
+			g.do(Step{Op: "Aggregate", Recv: gid, Aggs: []Agg{{Fn: FnRef{K: "builtin", Sym: "sum"}, Col: toBS("W")}, {Fn: FnRef{K: "agg", Sym: "altAggI"}, Col: toBS("W"), As: toBS("alt")},
+				{Fn: FnRef{K: "builtin", Sym: "majority"}, Col: toBS("T")}, {Fn: FnRef{K: "agg", Sym: "firstAggI"}, Col: toBS("V"), As: toBS("first")}}})
+			g.end()
+		}
+	}
+	rec = func(k int) {
+		if k == n {
+			emit()
+			return
+		}
+		for i := k; i < n; i++ {
+			perm[k], perm[i] = perm[i], perm[k]
+			rec(k + 1)
+			perm[k], perm[i] = perm[i], perm[k]
+		}
+	}
+	rec(0)
 }
 
 func genC05(g *Gen) {
